@@ -14,7 +14,11 @@ GIT = threading.Lock()
 
 V = os.path.dirname(os.path.dirname(os.path.abspath(__file__)))
 # a change that breaks the statement of another property than the one it was written for
-OTHER = {"C06-D": "C11"}
+OTHER = {"C06-D": "C11",     # template field lost over dump / reload: C11's statement (a reloaded cache decodes as before)
+         "C03-E": "C11",     # the same for IPFIX
+         "C07-F": "C12"}     # the sFlow worker queues its encode buffer without a copy: C12 / C13 (what is published)
+# judged outside the properties (see DESIGN.md section 9): not expected to be detected
+OUTSIDE = {"C17-E", "C18-F"}
 
 
 def one(name):
@@ -37,7 +41,7 @@ def one(name):
         with open("/tmp/seedreg-out/%s.log" % name, "w") as fh:
             fh.write(p.stdout)
         first = next((l.strip() for l in p.stdout.split("\n") if "violation:" in l or "INFRA" in l.upper()), "")
-        return name, prop, p.returncode, first[:200]
+        return name, prop, p.returncode, ("(judged outside the property) " if name in OUTSIDE else "") + first[:200]
     finally:
         with GIT:
             subprocess.call(["git", "-C", "/repo", "worktree", "remove", "--force", wt])
